@@ -37,6 +37,16 @@ def extra_terms(tier):
         ("any", None), ("list", None, ()), ("list", None, (ln(1, 2),)),
         ("list", ("elems", (E,)), ()), ("list", ("elems", (INT, E)), (ln(3),)),
     ]
+    # falsy members: None, 0, "", False, [], {} given for a declared key must still be pinned
+    nullable = ("any", (NONE, INT))
+    out += [
+        ("dict", (("a", False, nullable), ("b", True, NONE)), False),
+        ("dict", (("a", True, INT), ("b", True, STR), ("c", True, S("bool"))), False),
+        ("dict", (("a", True, ("list", ("typed", INT), ())), ("b", True, ("dict", None, False))), True),
+        ("dict", (("a", False, ("dict", (("x", True, nullable), ("y", True, INT)), False)),), False),
+        ("list", ("typed", nullable), ()), ("list", ("elems", (NONE, INT, E)), ()),
+        ("dict", (("a", True, S("float")), ("b", True, S("bytes"))), False),
+    ]
     if tier == "thorough":
         out += [("list", ("elems", (E, d_ab, d_rel, E)), ()),
                 ("any", (("list", ("elems", (E, INT, E)), ()), ("list", ("typed", STR), ()))),
